@@ -12,7 +12,9 @@ import tempfile
 ID = "C11"
 LEVEL = "exploration"
 KINDS = ["parse", "cfparse", "re", "re0"]
-WORDS = ["buy", "sell", "apples", "Pears", "the", "a", "from", "x-ray", "ok.", "items", "now", "(maybe)", "50%", "Ünï"]
+WORDS = ["buy", "sell", "apples", "Pears", "the", "a", "from", "x-ray", "ok.", "items", "now", "(maybe)", "50%", "Ünï",
+         # literal text with a run of blanks / a TAB / a no-break space inside (column-aligned step texts): part of the pattern as written
+         "big  gap", "col\tumn", "nb\u00a0sp", "three   blanks"]
 RULE = ("step patterns of 1-5 tokens over {literal word, {name}, {name:d}, {:w}, {x:f}, custom registered type, cfparse "
         "cardinality fields (+ ?), regex groups named / unnamed / optional} for the four matcher kinds; step texts derived "
         "from them (exact instance with known raw field values, wrong case, extra prefix, extra suffix, changed literal); "
@@ -34,9 +36,9 @@ REQUIRED = {"match.instance_matches": {"quick": 3000, "thorough": 150000}, "args
             "cucumber.lookup": {"quick": 1000, "thorough": 50000}, "registry.find_step_definition_agrees_with_find_match": {"quick": 3000, "thorough": 150000},
             "registry.partial_converter_lookup": {"quick": 2000, "thorough": 100000}, "lookups_ending_in_converter_error": {"quick": 200, "thorough": 10000}, "modules.default_matcher_reset": {"quick": 100, "thorough": 800},
             "wrapper.span_invariant_on_every_match": {"quick": 5000, "thorough": 250000}}
-REQUIRED_SEEN = {"step_function_flavour": ["sync", "async_plain", "async_with_timeout", "behind_shared_decorator"], "step_module_imports_another": ["yes"],
+REQUIRED_SEEN = {"literal_text_class": ["run_of_blanks_or_tab_or_nbsp_inside"], "step_function_flavour": ["sync", "async_plain", "async_with_timeout", "behind_shared_decorator"], "step_module_imports_another": ["yes"],
                  "cucumber_expression_parameters": ["none", "1", "2", "no_match"],
-                 "project_default_given_by": ["use_default_step_matcher", "use_step_matcher_before_loading"], "matcher_kind": KINDS, "field_name_class": ["soft_keyword"], "custom_type_name": ["Color", "Colorful"], "token_kind": ["lit", "named", "int", "word", "float", "custom", "many", "optional", "rnamed", "runnamed", "roptional"]}
+                 "project_default_given_by": ["use_default_step_matcher", "use_step_matcher_before_loading"], "matcher_kind": KINDS, "field_name_class": ["soft_keyword"], "custom_type_name": ["Color", "Colorful"], "token_kind": ["lit", "named", "int", "word", "float", "custom", "many", "optional", "rnamed", "runnamed", "roptional", "rbracket"]}
 EXHAUSTIVE = {"quick": True, "thorough": True}
 EXHAUSTIVE_SCOPE = "all ordered registration histories up to the length bound over a 6-entry pattern pool x 3 step types"
 NSHARDS = {"quick": 16, "thorough": 16}
@@ -74,8 +76,8 @@ def gen_pattern(rng, kind, ntok=None):
                 t = rng.choice(choices)
                 toks.append((t, next(names)) if t != "word" else ("word",))
             else:
-                t = rng.choice(["rnamed", "runnamed", "roptional"])
-                toks.append((t, next(names)) if t == "rnamed" else ((t,) if t == "runnamed" else (t, rng.choice(["very", "not"]))))
+                t = rng.choice(["rnamed", "runnamed", "roptional", "rbracket"])
+                toks.append((t, next(names)) if t in ("rnamed", "rbracket") else ((t,) if t == "runnamed" else (t, rng.choice(["very", "not"]))))
             nfield += 1
             last_field = True
         else:
@@ -109,6 +111,9 @@ def pattern_text(toks, kind):
             parts.append("{%s:Color?}" % t[1])
         elif k == "rnamed":
             parts.append(r"(?P<%s>\w+)" % t[1])
+        elif k == "rbracket":
+            # a character set that starts with '[' / contains '--' (legal; `re` only WARNS that such sets may change meaning one day)
+            parts.append((r"(?P<%s>[[\](){}])" if t[1] in ("n1", "n3", "type") else r"(?P<%s>[\w.~~-]+)") % t[1])
         elif k == "runnamed":
             parts.append(r"(\d+)")
         elif k == "roptional":
@@ -156,6 +161,9 @@ def instance(toks, rng):
         elif k == "rnamed":
             raw = rng.choice(["alpha", "b2", "Z"])
             conv, name = raw, t[1]
+        elif k == "rbracket":
+            raw = rng.choice(["[", "(", "}", "]"]) if t[1] in ("n1", "n3", "type") else rng.choice(["a.b", "x~y", "p-q", "w_1"])
+            conv, name = raw, t[1]
         elif k == "runnamed":
             raw = rng.choice(["7", "100"])
             conv, name = raw, None
@@ -199,6 +207,8 @@ def ref_regex(toks, permissive):
             parts.append(r"(?:[-+]?\d+(?:\s*,\s*[-+]?\d+)*)")
         elif k == "rnamed":
             parts.append(r"(?:\w+)")
+        elif k == "rbracket":
+            parts.append(r"(?:[\[\](){}])" if t[1] in ("n1", "n3", "type") else r"(?:[\w.~\-]+)")
         elif k == "runnamed":
             parts.append(r"(?:\d+)")
         elif k == "roptional":
@@ -216,6 +226,10 @@ def near_misses(toks, text, rng):
         if swapped != w:
             out.append(("wrong_case", re.sub(r"(?<!\S)%s(?!\S)" % re.escape(w), lambda m: swapped, text, count=1)))
         out.append(("changed_literal", re.sub(r"(?<!\S)%s(?!\S)" % re.escape(w), lambda m: w + "X", text, count=1)))
+    collapsed = " ".join(text.split())
+    if collapsed != text and all(t[0] == "lit" or t[0] in ("int", "word", "float", "custom", "rnamed", "runnamed", "rbracket") for t in toks):
+        # (only with fields that cannot swallow blanks themselves)
+        out.append(("collapsed_whitespace", collapsed))
     out.append(("extra_prefix", "zzz " + text))
     out.append(("extra_suffix", text + " zzz"))
     out.append(("extra_suffix_nospace", text + "!"))
@@ -370,6 +384,8 @@ def check_pattern(lab, mon, rng, kind, sample=False):
     nfields = len(fields)
     mon.case(("pat", kind, ptext, text), nfields >= 1)
     mon.seen("matcher_kind", kind)
+    if any(t[0] == "lit" and re.search(r"\s", t[1]) for t in toks):
+        mon.seen("literal_text_class", "run_of_blanks_or_tab_or_nbsp_inside")
     for t in toks:
         mon.seen("token_kind", t[0])
         if len(t) > 1 and t[0] != "lit" and t[1] in ("type", "match", "case"):
